@@ -508,16 +508,27 @@ class VarDefaultArray(Contract):
     name = f"{VAR}.default_array"
     prop = ("C01",)
     top_level = True
-    descr = "the default array has one element per entity, each equal to the declared default (non-enum types)"
+    cases = ("number", "enum")
+    descr = ("the default array has one element per entity, each equal to the declared default; for an enumeration it is an enum "
+             "array of that enumeration holding the default member's index")
+    inline = ("openfisca_core.indexed_enums.enum_array.EnumArray.__new__",)
 
     def setup(self, I, ctx, case):
         from pyvc import nparr
+        n = ctx.fresh_int("size")
+        ctx.assume(n >= 0)
+        if case == "enum":
+            enumcls = I.resolve_qualified("openfisca_core.indexed_enums.enum.Enum")
+            idx = ctx.fresh_int("default_index")
+            member = Opaque(None, "default-member", {"fields": {"index": Sym(idx)}})
+            pv = Opaque(None, "the-enumeration", {})
+            v = Obj(I.resolve_qualified(VAR), {"name": "v", "value_type": enumcls, "dtype": nparr.DType("uint8"), "default_value": member,
+                                               "possible_values": pv}, label="var")
+            return {"self": v, "array_size": Sym(n), "__dv": idx, "__n": n, "__pv": pv, "__case": case}
         dv = ctx.fresh_real("default")
         v = Obj(I.resolve_qualified(VAR), {"name": "v", "value_type": I.builtins["float"], "dtype": nparr.DType("float"),
                                            "default_value": Sym(dv)}, label="var")
-        n = ctx.fresh_int("size")
-        ctx.assume(n >= 0)
-        return {"self": v, "array_size": Sym(n), "__dv": dv, "__n": n}
+        return {"self": v, "array_size": Sym(n), "__dv": dv, "__n": n, "__case": case}
 
     def post(self, I, ctx, a, out, old):
         from pyvc import nparr
@@ -525,8 +536,43 @@ class VarDefaultArray(Contract):
             return [("returns-an-array", False)]
         r = out[1]
         i = ctx.fresh_int("i")
-        return [("one-element-per-entity", B._z(r.n) == a["__n"]),
-                ("every-element-is-the-default", z3.Implies(z3.And(i >= 0, i < a["__n"]), B.zreal(r.elem(i)) == a["__dv"]))]
+        res = [("one-element-per-entity", B._z(r.n) == a["__n"]),
+               ("every-element-is-the-default", z3.Implies(z3.And(i >= 0, i < a["__n"]), B.zreal(r.elem(i)) == B.zreal(a["__dv"])))]
+        if a["__case"] == "enum":
+            res.append(("an-enum-array-of-the-variable's-enumeration", r.cls_override is not None and r.cls_override.name == "EnumArray"
+                        and r.attrs.get("possible_values") is a["__pv"]))
+        return res
+
+
+class HolderDefaultArray(Contract):
+    name = f"{HOLDER}.default_array"
+    prop = ("C01",)
+    top_level = True
+    descr = "a holder's default array is its variable's default array for the size of its population (so it has the variable's type)"
+
+    def setup(self, I, ctx, case):
+        n = ctx.fresh_int("count")
+        ctx.assume(n >= 0)
+        var = Obj(I.resolve_qualified(VAR), {"name": "v"}, label="var")
+        pop = Obj(I.builtins["object"], {"count": Sym(n)}, label="population")
+        return {"self": Obj(I.resolve_qualified(HOLDER), {"variable": var, "population": pop}, label="holder"), "__var": var, "__n": n}
+
+    @staticmethod
+    def local_contracts():
+        return {f"{VAR}.default_array": rec(f"{VAR}.default_array", "var_default_array", [("return", lambda I, ctx, a: Opaque(None, "variable-default-array", {}))])}
+
+    def post(self, I, ctx, a, out, old):
+        calls = log_of(ctx, "var_default_array")
+        ok = len(calls) == 1 and calls[0]["args"]["self"] is a["__var"]
+        res = [("asks-its-variable-once", ok)]
+        if ok:
+            res += [("for-the-size-of-its-population", B._zb(B.eq_formula(I, ctx, calls[0]["args"]["array_size"], Sym(a["__n"])))),
+                    ("and-returns-that-array", out[0] == "return" and out[1] is calls[0]["value"])]
+        return res
+
+    def outcomes(self, I, ctx, a, old):
+        # call-site form: an opaque array (recording variants are installed by the callers that need the log)
+        return ("return", Opaque(ctx.fresh_const("default_array", E.ARR), "array:default", {}))
 
 
 def _log_encode(ctx, args):
@@ -686,4 +732,4 @@ def install(I):
 
 
 CONTRACTS = [SimCalculateFull(), SimInnerCalculate(), SimRunFormula(), SimCheckForCycle(), SimInvalidateSpiral(), SimPurge(),
-             VarGetFormula(), VarDefaultArray(), SimCastFormulaResult(), TracerBrowse(), FlatTraceGet()]
+             VarGetFormula(), VarDefaultArray(), HolderDefaultArray(), SimCastFormulaResult(), TracerBrowse(), FlatTraceGet()]
